@@ -616,7 +616,7 @@ fn contains_jsonb(left: &[u8], right: &[u8]) -> Result<bool, Error> {
                         }
                         let l_val = &left[l_val_offset..l_val_offset + l_jentry.length as usize];
                         if r_jentry.type_code != CONTAINER_TAG {
-                            if !l_val.eq(r_val) {
+                            if !scalar_equals(&l_jentry, l_val, &r_jentry, r_val) {
                                 return Ok(false);
                             }
                         } else if !contains_jsonb(l_val, r_val)? {
@@ -655,8 +655,27 @@ fn contains_jsonb(left: &[u8], right: &[u8]) -> Result<bool, Error> {
             }
             Ok(true)
         }
-        _ => Ok(left.eq(right)),
+        _ => {
+            let l_jentry = JEntry::decode_jentry(read_u32(left, 4)?);
+            let r_jentry = JEntry::decode_jentry(read_u32(right, 4)?);
+            Ok(scalar_equals(&l_jentry, &left[8..], &r_jentry, &right[8..]))
+        }
     }
+}
+
+// Scalar values are equal if they have the same type and the same value,
+// numbers are equal if they have the same numeric value, whatever their encoding.
+fn scalar_equals(l_jentry: &JEntry, l_val: &[u8], r_jentry: &JEntry, r_val: &[u8]) -> bool {
+    if l_jentry.type_code != r_jentry.type_code {
+        return false;
+    }
+    if l_jentry.type_code == NUMBER_TAG {
+        return match (Number::decode(l_val), Number::decode(r_val)) {
+            (Ok(l_num), Ok(r_num)) => l_num == r_num,
+            _ => false,
+        };
+    }
+    l_val.eq(r_val)
 }
 
 fn get_jentry_by_name(
@@ -3155,10 +3174,7 @@ fn read_u32(buf: &[u8], idx: usize) -> Result<u32, Error> {
 
 fn array_contains(arr: &[u8], arr_header: u32, val: &[u8], val_jentry: JEntry) -> bool {
     for (jentry, arr_val) in iterate_array(arr, arr_header) {
-        if jentry.type_code != val_jentry.type_code {
-            continue;
-        }
-        if val.eq(arr_val) {
+        if scalar_equals(&jentry, arr_val, &val_jentry, val) {
             return true;
         }
     }
